@@ -29,7 +29,7 @@ TIERS = {
     "thorough": {"shards": 16, "budget_s": 540},
 }
 MIN_EVENTS = {"quick": 8000, "thorough": 1200}
-DECIDING = {"planned", "inversion"}
+DECIDING = {"planned", "inversion", "variants"}
 RULE = (
     "families L and N (first_order), N and L (stacked_time); 1-4 swap cells, anticipated only / unanticipated only / mixed, "
     "several dates, the same variable at several dates, exogenized date later than the endogenized one (anticipated), "
@@ -86,18 +86,24 @@ def install():
 
 
 def _cells(plan, which, span):
-    """[(name, period index)] registered in the plan (anticipated or unanticipated)"""
+    """[(name, period index, kind)] registered AND active in the plan; read from the raw registers (a status of None or False
+    means "not registered" / "withdrawn"), not through the plan's own boolean-array helper that the simulators use"""
     out = []
+    pos = {str(t): k for k, t in enumerate(span)}
     for kind in ("anticipated", "unanticipated"):
         reg = f"{which}_{kind}"
         try:
-            names = tuple(plan.get_register_by_name(reg).keys())
-            arr = plan.get_register_as_bool_array(reg, periods=tuple(span)) if False else plan.get_registers_as_bool_arrays(periods=tuple(span), register_names=(reg,))[reg]
+            register = plan.get_register_by_name(reg)
+            base = tuple(plan.base_span)
         except Exception:
             continue
-        for r, n in enumerate(names):
-            for k in np.flatnonzero(arr[r]):
-                out.append((n, int(k), kind))
+        for n, statuses in register.items():
+            for t, st in zip(base, statuses):
+                if st is None or st is False or not bool(st):
+                    continue
+                k = pos.get(str(t))
+                if k is not None:
+                    out.append((n, int(k), kind))
     return out
 
 
@@ -255,7 +261,8 @@ def make_case(rng):
         background.append([nm, t, kind, float(np.round(rng.normal(0, scale), 5))])
     rr = M.render_source(spec, None, 0)
     return {"kind": "plan", "family": family, "method": method, "spec": spec, "steady": steady, "meta": meta, "source": rr["source"], "T": T,
-            "cells": cells, "background": background, "mode": mode, "hist": int(rng.integers(0, 2 ** 31)) if rng.random() < 0.4 else None, "deviation": bool(rng.random() < 0.3) if method == "first_order" else False}
+            "cells": cells, "background": background, "mode": mode, "n_decoys": int(rng.integers(1, 3)) if rng.random() < 0.3 else 0,
+            "edit_seed": int(rng.integers(0, 2 ** 31)), "two_variants": bool(rng.random() < 0.25), "hist": int(rng.integers(0, 2 ** 31)) if rng.random() < 0.4 else None, "deviation": bool(rng.random() < 0.3) if method == "first_order" else False}
 
 
 def run_case(c, case):
@@ -291,6 +298,8 @@ def run_case(c, case):
             from ..workloads import history as Hist
             for op in Hist.perturb(m, case["hist"], spec, freq="mm"):
                 c.note("history:" + op)
+        tnames_ = [q["name"] for q in spec["tvars"]]
+        shocks_ = [q["name"] for q in spec["tshocks"]]
         T = case["T"]
         start = ir.mm(2022, 3)
         span = ir.Span(start, start + (T - 1))
@@ -354,6 +363,28 @@ def run_case(c, case):
                 plan.exogenize_unanticipated(sp[cl["t_x"]], cl["var"])
                 plan.endogenize_unanticipated(sp[cl["t_s"]], cl["shock"])
             db2[cl["var"]][sp[cl["t_x"]]] = float(base[cl["var"]].get_data(sp[cl["t_x"]])[0, 0])
+        # ---- an EDITED plan: decoy points are registered and then withdrawn (status=False); with input values off the
+        # path at the withdrawn dates, a withdrawn point that is still treated as active moves the simulation
+        g_ = np.random.default_rng(case.get("edit_seed", 0))
+        for _ in range(int(case.get("n_decoys", 0))):
+            anticipated = all(cl["kind"] == "anticipated" for cl in cells) if case.get("mode") != "mixed" else False
+            if case.get("mode") == "mixed":
+                continue   # a withdrawn break point could legitimately matter for the frame layout of a mixed plan: not drawn
+            t_d = int(g_.integers(0, T))
+            v_d = tnames_[int(g_.integers(0, len(tnames_)))]
+            s_d = shocks_[int(g_.integers(0, len(shocks_)))]
+            if any((cl["var"] == v_d and cl["t_x"] == t_d) or (cl["shock"] == s_d and cl["t_s"] == t_d) for cl in cells):
+                continue
+            try:
+                if anticipated:
+                    plan.exogenize_anticipated(sp[t_d], v_d); plan.endogenize_anticipated(sp[t_d], "ant_" + s_d)
+                    plan.exogenize_anticipated(sp[t_d], v_d, status=False); plan.endogenize_anticipated(sp[t_d], "ant_" + s_d, status=False)
+                else:
+                    plan.exogenize_unanticipated(sp[t_d], v_d); plan.endogenize_unanticipated(sp[t_d], s_d)
+                    plan.exogenize_unanticipated(sp[t_d], v_d, status=False); plan.endogenize_unanticipated(sp[t_d], s_d, status=False)
+                c.note("plan-edit:decoy-registered-and-withdrawn")
+            except Exception as exc:
+                c.note(f"plan-edit:raised:{type(exc).__name__}")
         try:
             with rt.quiet(), np.errstate(all="ignore"):
                 out, pinfo = m.simulate(db2, span, plan=plan, when_fails="silent", return_info=True, **kw)
@@ -428,6 +459,65 @@ def run_case(c, case):
                                 f"{q['name']}: max discrepancy {np.max(np.abs(a - b)):.3e} (the model object that ran the plan had "
                                 f"{'a history of earlier queries' if case.get('hist') is not None else 'no earlier history'})")
                     return
+
+
+        # ---- two DATA variants in one planned call: each variant hits its own targets with its own shocks
+        if case.get("two_variants"):
+            try:
+                dbb = base_db.copy()
+                for cl in cells:
+                    dbb[inst(cl)][sp[cl["t_s"]]] = float(np.round(-0.6 * cl["value"] + (0.3 if family == "L" else 0.004), 6))
+                _BUSY["on"] = True
+                try:
+                    with rt.quiet(), np.errstate(all="ignore"):
+                        base1 = m.simulate(dbb, span, when_fails="silent", **kw)
+                finally:
+                    _BUSY["on"] = False
+                db2b = base_db.copy()
+                for cl in cells:
+                    db2b[cl["var"]][sp[cl["t_x"]]] = float(base1[cl["var"]].get_data(sp[cl["t_x"]])[0, 0])
+                with rt.quiet(), np.errstate(all="ignore"):
+                    out1, pinfo1 = m.simulate(db2b, span, plan=plan, when_fails="silent", return_info=True, **kw)   # monitored
+                if not all(getattr(st, "is_success", True) for st in pinfo1.get("exit_status", ())):
+                    c.inconc("two-variants:single-run-reported-failure")
+                    return
+                both = ir.Databox()
+                for k_ in db2.keys():
+                    a_, b_ = db2[k_], db2b[k_]
+                    if isinstance(a_, ir.Series):
+                        if a_.start != b_.start or a_.data.shape[0] != b_.data.shape[0]:
+                            c.inconc("two-variants:inputs-not-aligned")
+                            return
+                        both[k_] = ir.Series(start=a_.start, values=np.column_stack([np.asarray(a_.data, dtype=float)[:, 0], np.asarray(b_.data, dtype=float)[:, 0]]))
+                    else:
+                        both[k_] = a_
+                _BUSY["on"] = True
+                try:
+                    with rt.quiet(), np.errstate(all="ignore"):
+                        outj = m.simulate(both, span, plan=plan, num_variants=2, when_fails="silent", **kw)
+                finally:
+                    _BUSY["on"] = False
+            except Exception as exc:
+                c.inconc(f"two-variants:raised:{type(exc).__name__}")
+                c.note(f"two-variants:raised:{type(exc).__name__}:{str(exc)[:80]}")
+                return
+            names_ = [q["name"] for q in spec["tvars"]] + sorted({inst(cl) for cl in cells})
+            for v_, single in enumerate((out, out1)):
+                for n_ in names_:
+                    a_ = np.nan_to_num(np.asarray(outj[n_].get_data(sp), dtype=float))
+                    b_ = np.nan_to_num(np.asarray(single[n_].get_data(sp), dtype=float)[:, 0])
+                    c.event("variants", "planned-joint-run==single-runs", key=("variants", method, kinds, v_), nontrivial=v_ >= 1)
+                    if a_.ndim != 2 or a_.shape[1] < 2:
+                        c.violation("two-variants:output-has-one-variant", f"{n_}: shape {a_.shape}")
+                        return
+                    err = np.max(np.abs(a_[:, v_] - b_))
+                    if not np.isfinite(err) or err > max(tol, 1e-8) * 10 * (1 + np.max(np.abs(b_))):
+                        if nonlinear_inverse:
+                            c.inconc("two-variants:nonlinear-model-alternative-solution")
+                            return
+                        c.violation(f"two-variants:variant-differs-from-its-own-single-variant-planned-simulation:{method}",
+                                    f"{n_}, data variant {v_}: max discrepancy {err:.3e} between the planned simulate(num_variants=2) and the planned simulation of that variant alone")
+                        return
 
 
 def replay(c, case):
